@@ -1089,8 +1089,8 @@ class Terms:
         if key == "<indirect>" or key == "<fnptr>" or key is None:
             fo = f.get("op")
             ft = self.operand(fo, bb, n) if fo else ("unknown", "fn")
-            return ("callind", ft, args, bb)
-        return ("call", key, args, bb)
+            return ("callind", ft, args, t.get("site", bb))
+        return ("call", key, args, t.get("site", bb))
 
     def rvalue(self, rv, bb, pos):
         k = rv["k"]
@@ -2097,16 +2097,86 @@ def _inline_calls(raw, helpers, stats):
         for j, a in enumerate(t["args"]):
             blocks[i]["stmts"].append({"k": "assign", "place": {"l": loff + j + 1, "p": []}, "rv": {"k": "use", "op": a}, "line": line, "exp": False, "inl": key})
         uw = t.get("unwind") if isinstance(t.get("unwind"), int) else None
-        for hb in H["blocks"]:
+        ret_blocks = []
+        for hi, hb in enumerate(H["blocks"]):
             nb = _shift(hb, loff, boff, cont, uw)
             if nb["term"]["k"] == "return":
                 nb["term"] = {"k": "goto", "target": cont, "line": nb["term"].get("line"), "exp": False}
+                ret_blocks.append(boff + hi)
             elif nb["term"]["k"] == "resume" and uw is not None:
                 nb["term"] = {"k": "goto", "target": uw, "line": nb["term"].get("line"), "exp": False}
             blocks.append(nb)
         tgt = t.get("target")
         cont_term = {"k": "goto", "target": tgt, "line": line, "exp": False} if isinstance(tgt, int) else {"k": "unreachable", "line": line, "exp": False}
-        blocks.append({"stmts": [{"k": "assign", "place": t["dest"], "rv": {"k": "use", "op": {"k": "move", "place": {"l": loff, "p": []}, "ty": H["locals"][0]["ty"]}}, "line": line, "exp": False, "inl": key}], "term": cont_term, "cleanup": False})
+        move_ret = {"k": "assign", "place": t["dest"], "rv": {"k": "use", "op": {"k": "move", "place": {"l": loff, "p": []}, "ty": H["locals"][0]["ty"]}}, "line": line, "exp": False, "inl": key}
+        blocks.append({"stmts": [move_ret], "term": cont_term, "cleanup": False})
+        # `helper(..)?` : a copy that ends in a literal Ok(..) continues, one that ends in an error it propagated (or a literal
+        # Err) leaves again — thread each such end of the copy to its own side of the caller's `?` (the branch call is
+        # duplicated, data flow is unchanged; only the impossible Err->continue / Ok->leave edges disappear)
+        q = _question_mark_at(blocks, tgt) if isinstance(tgt, int) else None
+        if q is not None:
+            tb_, sb_, cont_tgt, break_tgt = q
+            nh = len(H["blocks"])
+            ret = loff
+
+            def agg_kind(stmts):
+                for st in reversed(stmts):
+                    if st["k"] == "assign" and st["place"]["l"] == ret and not st["place"]["p"]:
+                        rv = st["rv"]
+                        if rv["k"] == "agg" and rv.get("variant") in ("Ok", "Some"):
+                            return "Continue"
+                        if rv["k"] == "agg" and rv.get("variant") in ("Err", "None"):
+                            return "Break"
+                        return "?"
+                return None
+
+            def chain_from(x):
+                """the straight-line blocks from x to the end of the copy (drops and gotos that do not touch the result)"""
+                out = []
+                while True:
+                    if x == cont:
+                        return out
+                    if not (boff <= x < boff + nh) or len(out) > 10 or x in out:
+                        return None
+                    bx = blocks[x]
+                    if agg_kind(bx["stmts"]) is not None or bx["term"]["k"] not in ("goto", "drop") or not isinstance(bx["term"].get("target"), int):
+                        return None
+                    out.append(x)
+                    x = bx["term"]["target"]
+
+            def threaded_tail(kind):
+                n_ = len(blocks)
+                t_clone = json.loads(json.dumps(blocks[tb_]))
+                t_clone["term"]["target"] = n_ + 2
+                t_clone["term"]["site"] = blocks[tb_]["term"].get("site", tb_)   # the same call, seen on one of its paths
+                s_clone = {"stmts": json.loads(json.dumps(blocks[sb_]["stmts"])), "term": {"k": "goto", "target": cont_tgt if kind == "Continue" else break_tgt, "line": line, "exp": False, "threaded": kind}, "cleanup": False}
+                blocks.append({"stmts": [json.loads(json.dumps(move_ret))], "term": {"k": "goto", "target": n_ + 1, "line": line, "exp": False}, "cleanup": False})
+                blocks.append(t_clone)
+                blocks.append(s_clone)
+                return n_
+
+            for d in range(boff, boff + nh):
+                bd = blocks[d]
+                td = bd["term"]
+                kind = None
+                if td["k"] == "call" and td.get("dest") and td["dest"]["l"] == ret and not td["dest"]["p"] and (td["func"].get("def") or "").endswith("FromResidual::from_residual") and isinstance(td.get("target"), int):
+                    kind = "Break"
+                elif td["k"] in ("goto", "drop") and isinstance(td.get("target"), int):
+                    k_ = agg_kind(bd["stmts"])
+                    kind = k_ if k_ in ("Continue", "Break") else None
+                if kind is None:
+                    continue
+                ch = chain_from(td["target"])
+                if ch is None:
+                    continue
+                tail = threaded_tail(kind)
+                nxt = tail
+                for x in reversed(ch):
+                    cx = json.loads(json.dumps(blocks[x]))
+                    cx["term"]["target"] = nxt
+                    blocks.append(cx)
+                    nxt = len(blocks) - 1
+                td["target"] = nxt
         blocks[i]["term"] = {"k": "goto", "target": boff, "line": line, "exp": False, "inl_call": key}
         for d in H.get("debug", []):
             d2 = _shift(d, loff, 0, 0, None)
@@ -2114,6 +2184,60 @@ def _inline_calls(raw, helpers, stats):
             debug.append(d2)
         stats[key] = stats.get(key, 0) + 1
     return raw
+
+
+def _question_mark_at(blocks, tgt):
+    """the block `tgt` starts `x?`: (block with the Try::branch call, block with the switch, Continue target, Break target)"""
+    tb = blocks[tgt]
+    t = tb["term"]
+    if tb["cleanup"] or t["k"] != "call" or t["func"].get("def") != "std::ops::Try::branch" or not isinstance(t.get("target"), int):
+        return None
+    if any(st["k"] != "assign" or st["rv"]["k"] not in ("use",) for st in tb["stmts"]):
+        return None
+    sb = blocks[t["target"]]
+    st_ = sb["term"]
+    if st_["k"] != "switch" or len(st_["targets"]) != 2 or any(s_["k"] != "assign" or s_["rv"]["k"] != "discr" for s_ in sb["stmts"]):
+        return None
+    tg = dict((v, b_) for v, b_ in st_["targets"])
+    if set(tg) != {0, 1}:
+        return None
+    return tgt, t["target"], tg[0], tg[1]
+
+
+def _return_kind(blocks, rb, loff, boff, nh):
+    """does the inlined copy reach its end `rb` with a value that is certainly Ok/Some ('Continue') or certainly an error /
+    None ('Break')?"""
+    ret = loff
+    for st in reversed(blocks[rb]["stmts"]):
+        if st["k"] == "assign" and st["place"]["l"] == ret and not st["place"]["p"]:
+            rv = st["rv"]
+            if rv["k"] == "agg" and rv.get("variant") in ("Ok", "Some"):
+                return "Continue"
+            if rv["k"] == "agg" and rv.get("variant") in ("Err", "None"):
+                return "Break"
+            return None
+    # no assignment here: the value was produced by the terminator(s) leading here
+    preds = [i for i in range(boff, boff + nh) if i != rb and rb in [x for x in ([blocks[i]["term"].get("target")] + [y[1] for y in blocks[i]["term"].get("targets", [])] + [blocks[i]["term"].get("otherwise")]) if isinstance(x, int)]]
+    kinds = set()
+    for pi in preds:
+        pt = blocks[pi]["term"]
+        if pt["k"] == "call" and pt.get("dest") and pt["dest"]["l"] == ret and not pt["dest"]["p"] and (pt["func"].get("def") or "").endswith("FromResidual::from_residual"):
+            kinds.add("Break")
+        elif pt["k"] == "goto" and not blocks[pi]["stmts"] and False:
+            kinds.add(None)
+        else:
+            # a plain block that assigns the value and falls through
+            k_ = None
+            for st in reversed(blocks[pi]["stmts"]):
+                if st["k"] == "assign" and st["place"]["l"] == ret and not st["place"]["p"]:
+                    rv = st["rv"]
+                    if rv["k"] == "agg" and rv.get("variant") in ("Ok", "Some"):
+                        k_ = "Continue"
+                    elif rv["k"] == "agg" and rv.get("variant") in ("Err", "None"):
+                        k_ = "Break"
+                    break
+            kinds.add(k_ if pt["k"] == "goto" else None)
+    return list(kinds)[0] if len(kinds) == 1 and None not in kinds else None
 
 
 def _fold_constant_switches(body):
@@ -2191,9 +2315,9 @@ def _inline_new_helpers(facts):
         pass
     # constant folding in the bodies that received a copy (a few rounds: folding exposes more constants)
     for p in touched:
-        for _ in range(3):
+        for round_ in range(3):
             body = facts.bodies[p]
-            if not _fold_constant_switches(body):
+            if not _fold_constant_switches(body) and round_ > 0:
                 break
             # blocks that can no longer be reached are emptied, so that they are nobody's predecessor (value flow merges
             # the definitions of all predecessors)
